@@ -77,6 +77,26 @@ def mutate(r, t, ascii_only=False):
     return "".join(t)
 
 
+INNER_LENS = [0, 1, 9, 10, 15, 16, 17, 25, 26, 27, 31, 32, 33, 48]
+
+
+def craft_inner(r, cm, comps, key, entries):
+    """BEC2 text whose auth blocks are correctly framed and encrypted containers around inner payloads of
+    arbitrary length (entries: [(tag, selector or None, encryptor object)]): what a reader sees when a
+    well-keyed writer of another version emitted a shorter / longer block body"""
+    hdr = b"BEC2\0"
+    for tag, sel, enc in entries:
+        inner = bytes(r.randrange(256) for _ in range(r.choice(INNER_LENS)))
+        if r.random() < 0.3:
+            inner = key[:len(inner)] + inner[len(key):]
+        raw = (b"" if sel is None else bytes([sel])) + enc.encrypt(inner)
+        if len(raw) > 255:
+            continue
+        hdr += bytes([tag, len(raw)]) + raw
+    hdr += b"\0\0"
+    return B.text_of_binary(cm, hdr + B.build(cm, comps).to_binary(len(hdr), key))
+
+
 def guarded(ctx, name, inp, f):
     """run an implementation call under a 5 s alarm; a hang is a C14 violation"""
     old = signal.signal(signal.SIGALRM, _alarm)
@@ -133,6 +153,28 @@ def correspondence(ctx):
                     descr.append(("bec2", t, ds))
                     ctx.case(("bec2", t, repr(ds)))
                     ctx.dist["bec2->" + ("ok" if rd[0] == "ok" else rd[1])] += 1
+            # well-keyed blocks around inner payloads of arbitrary length
+            ents = []
+            for e in decs:
+                tag = {"cust": 1, "csc": 2, "ecc": 3}[e[0]]
+                eo = ("ecc", e[1], None, e[3]) if e[0] == "ecc" else e
+                ents.append((tag, e[1] if e[0] == "ecc" else None, C.mk_encryptor(eo, ToyPub, ToyPriv)))
+            if ents:
+                kk = C.gen_key(r)
+                toyecc.reset()
+                cr = run_impl(lambda: craft_inner(r, cm, comps, kk, ents))
+                if cr[0] == "ok":
+                    t = cr[1]
+                    toyecc.reset()
+                    rd = guarded(ctx, "bec2", t, lambda: C.impl_bec2_read(t, decs, True, ToyPub, ToyPriv))
+                    if rd is not None:
+                        nr = toyecc.STATE["nr"]
+                        qd = qlist([C.q_encryptor(e) for e in decs], "encryptor")
+                        exprs.append("res_eqb (prod_eqb bec2_eqb N.eqb) (t_read %s %s true 0) %s" % (
+                            B.qstr(t), qd, qres(rd, lambda o: "(%s, %s)" % (C.q_bec2_obj(o), qN(nr)))))
+                        descr.append(("bec2-crafted-inner", t, decs))
+                        ctx.case(("bec2i", t, repr(decs)))
+                        ctx.dist["bec2 crafted inner->" + ("ok" if rd[0] == "ok" else rd[1])] += 1
     bad = ctx.coq_eval("c14", IMPORTS, exprs, preamble=C.preamble(), shard=120)
     if bad is None:
         return
@@ -289,6 +331,29 @@ def search(ctx):
             run("bf2", lambda: Bf3File.bf2_import(io.StringIO(t), r.random() < 0.8), t)
             t = mutate(r, r.choice(["12345-1234-1234-12 name", "foo (version 07)", "x", "09999-0000-0000-99"]))
             run("cfgid", lambda: ConfigId.create_from_str(t), t)
+            # identifier texts with format / template / regex metacharacters
+            t = list(r.choice(["12345-1234-1234-12 name", "foo (version 07)", "x", "09999-0000-0000-99", ""]))
+            for _ in range(r.choice([1, 1, 2, 3])):
+                t.insert(r.randrange(len(t) + 1), r.choice(["{}", "{0}", "{name}", "{0.x}", "{2}", "{", "}", "%s", "%d", "%(a)s", "%",
+                                                             "$x", "${", "\\1", "\\", "(", ")", "[", "]", "*", "+", "?", "|", "^",
+                                                             "\x00", "\u2028", "\r", "\t", "{} {} {}"]))
+            t = "".join(t)
+            run("cfgid", lambda: ConfigId.create_from_str(t), t)
+            if i % 3 == 0:
+                cm, comps = B.gen_file(r, 0.3, 1)
+                code = bytes(r.randrange(256) for _ in range(8))
+                ck = bytes(r.randrange(256) for _ in range(16))
+                sel = r.randrange(4)
+                allents = [(1, None, SoftwareCustKeyEncryptor(ck)), (2, None, ConfigSecurityCodeEncryptor(code)),
+                           (3, sel, EccEncryptor(sel, priv.public_key))]
+                ents = r.sample(allents, r.randrange(1, 4))
+                dd = [SoftwareCustKeyEncryptor(ck), ConfigSecurityCodeEncryptor(code), EccDecryptor(sel, priv)]
+                try:
+                    t = craft_inner(r, cm, comps, bytes(r.randrange(256) for _ in range(16)), ents)
+                except (OverflowError, ValueError):
+                    t = None
+                if t is not None:
+                    run("bec2", lambda: Bec2File.read_file(io.StringIO(t), dd, r.random() < 0.8), t)
             b = bytes(r.randrange(256) for _ in range(r.randrange(0, 9)))
             b = r.choice([b, b"\x01" + bytes([len(b) // 2]) + b])
             run("pfid2", lambda: pfid2_filter_to_str(b), b.hex())
@@ -303,7 +368,8 @@ def search(ctx):
     ctx.sample({"entry": "bf3", "mutated_text": mutate(r, valid_bf3())[:200]})
     ctx.extra["rule"] = ("mutation fuzzing (char flips, hex edits, deletions, duplications, insertions of instruction fragments, "
                          "truncations, line swaps/deletions; 1-8 edits) of valid BF3 / BEC2 (all block kinds) / BF2 (C13's grammar) files, "
-                         "config-id texts, filter bytes, plus unstructured random text; decryptor sets {none, public-only, private, wrong "
+                         "config-id texts (also with format/template/regex metacharacters), filter bytes, BEC2 files whose auth blocks are well-keyed "
+                         "containers around inner payloads of every length class, plus unstructured random text; decryptor sets {none, public-only, private, wrong "
                          "key, wrong code, several}; every call under a 5 s alarm; crypto plug-in registrations and module tables compared "
                          "before/after; correspondence: model == implementation (toy plug-ins) incl. the exact error class on mutated "
                          "BF3/BEC2 texts; non-trivial = every case; distinct by (entry, text)")
